@@ -318,7 +318,9 @@ class Elastic(_Simu):
 
         # end cases ----------------------------------------------------
 
-        return self.Results_Reshape_values(values, nodeValues)
+        # flat nodal vectors (Nn * dof_n,) cannot be told from element values when Nn * dof_n == Ne
+        storedOnNodes = True if result in ["displacement", "speed", "accel"] else None
+        return self.Results_Reshape_values(values, nodeValues, storedOnNodes)
 
     def _Calc_Psi_Elas(
         self,
